@@ -55,21 +55,60 @@ class Slice(object):
         self.pos = 0
         self.reads = []
         self.ret = None
+        self.desync = False
 
     def value(self, e):
         # bindings given as source text (e.g. 'len(self.additions)', 'data[1]', 'self.number_of_bits')
         key = ast.unparse(e)
         if key in self.env:
             return self.env[key]
-        if isinstance(e, ast.Call) and isinstance(e.func, ast.Attribute) and isinstance(e.func.value, ast.Name) and e.func.value.id == self.stream:
+        if self.is_stream_call(e):
             return self.stream_call(e)
+        # stream calls nested in the expression are performed first, in evaluation order, and their
+        # results substituted (`decoder.read_length_determinant() - 1`)
+        nested = [n for n in _calls_in_order(e) if self.is_stream_call(n)]
+        if nested:
+            unknown = False
+            e = ast.parse(ast.unparse(e), mode='eval').body
+            for n in [n for n in _calls_in_order(e) if self.is_stream_call(n)]:
+                v = self.stream_call(n)
+                if v is UNKNOWN or not isinstance(v, (int, bool, type(None), str, bytes)):
+                    unknown = True
+                else:
+                    n.__class__ = ast.Constant
+                    n.__dict__.clear()
+                    n.value = v
+                    n.kind = None
+            if unknown:
+                return UNKNOWN
+            ast.fix_missing_locations(e)
         try:
             return evalexpr.ev(e, _Env(self))
         except (evalexpr.Unsupported, TypeError, KeyError, ZeroDivisionError, ValueError):
             return UNKNOWN
 
+    def is_stream_call(self, e):
+        if isinstance(e, ast.Call) and isinstance(e.func, ast.Attribute) and isinstance(e.func.value, ast.Name) and e.func.value.id == self.stream:
+            return True
+        # a bound stream method held in a local: `read_byte = decoder.read_byte`
+        if isinstance(e, ast.Call) and isinstance(e.func, ast.Name) and isinstance(self.env.get(e.func.id), tuple) \
+                and self.env[e.func.id][:1] == ('bound',):
+            return True
+        return False
+
+    def touches_stream(self, node):
+        return any(isinstance(n, ast.Name) and (n.id == self.stream or (isinstance(self.env.get(n.id), tuple) and self.env[n.id][:1] == ('bound',)))
+                   for n in ast.walk(node))
+
+    def lose_sync(self):
+        """A statement the slice cannot follow touches the stream: from here on token positions are unknown."""
+        if self.side == 'enc':
+            self.tokens.append(('DESYNC', UNKNOWN, UNKNOWN, None))
+        else:
+            self.desync = True
+
     def stream_call(self, c):
-        name = c.func.attr
+        name = c.func.attr if isinstance(c.func, ast.Attribute) else self.env[c.func.id][1]
         if self.side == 'enc':
             if name not in ENC_CALLS:
                 return UNKNOWN
@@ -84,10 +123,14 @@ class Slice(object):
             return UNKNOWN
         kind, wi = DEC_CALLS[name]
         want = self.value(c.args[wi]) if wi is not None and len(c.args) > wi else UNKNOWN
-        if self.pos >= len(self.tokens):
+        if self.desync or self.pos >= len(self.tokens):
             self.reads.append((kind, want, None, c))
             return UNKNOWN
         tk, tv, tw, tc = self.tokens[self.pos]
+        if tk == 'DESYNC':
+            self.desync = True
+            self.reads.append((kind, want, None, c))
+            return UNKNOWN
         self.pos += 1
         self.reads.append((kind, want, (tk, tv, tw, tc), c))
         if tk != kind and (tk, kind) not in COMPAT:
@@ -108,6 +151,11 @@ class Slice(object):
     def block(self, stmts):
         for s in stmts:
             if isinstance(s, ast.Assign):
+                sv = s.value
+                if isinstance(sv, ast.Attribute) and isinstance(sv.value, ast.Name) and sv.value.id == self.stream and \
+                        (sv.attr in ENC_CALLS or sv.attr in DEC_CALLS) and isinstance(s.targets[0], ast.Name):
+                    self.env[s.targets[0].id] = ('bound', sv.attr)
+                    continue
                 v = self.value(s.value)
                 for t in s.targets:
                     self.bind(t, v)
@@ -117,6 +165,8 @@ class Slice(object):
             elif isinstance(s, ast.If):
                 t = self.value(s.test)
                 if t is UNKNOWN:
+                    if any(self.touches_stream(x) for x in s.body + s.orelse):
+                        self.lose_sync()
                     # names assigned inside become unknown
                     for n in ast.walk(s):
                         if isinstance(n, ast.Assign):
@@ -134,6 +184,8 @@ class Slice(object):
                         self.ret = tuple(self.value(e) for e in s.value.elts)
                 raise _Return()
             elif isinstance(s, (ast.For, ast.While, ast.Try, ast.With)):
+                if self.touches_stream(s):
+                    self.lose_sync()
                 for n in ast.walk(s):
                     if isinstance(n, (ast.Assign, ast.AugAssign)):
                         for tg in (n.targets if isinstance(n, ast.Assign) else [n.target]):
@@ -157,6 +209,24 @@ class Slice(object):
 
 class _Return(Exception):
     pass
+
+
+def _calls_in_order(e):
+    res = []
+
+    class V(ast.NodeVisitor):
+        def visit_Call(s, n):
+            s.visit(n.func)
+            for a in n.args:
+                s.visit(a)
+            for k in n.keywords:
+                s.visit(k.value)
+            res.append(n)
+
+        def visit_Lambda(s, n):
+            pass
+    V().visit(e)
+    return res
 
 
 def _load(t):
@@ -187,3 +257,33 @@ def stream_param(f, side):
         if n in (('encoder', '_encoder') if side == 'enc' else ('decoder', '_decoder')):
             return n
     raise AnalysisError('no stream parameter in %s' % f.name)
+
+
+def bitmap_replay(enc, dec, n):
+    """Replay oer.MembersType.encode_additions / decode_additions for n additions.
+    -> (verdict, detail, header) with verdict in 'ok' | 'bad' | 'undecided'; header = (length determinant
+    value, unused-bits value) or None.  'undecided' whenever a width is not a closed integer expression
+    for the slice (never an alarm)."""
+    try:
+        e = Slice(enc, {'len(self.additions)': n, 'self.additions': [None] * n}, stream_param(enc, 'enc'), 'enc').run()
+        d = Slice(dec, {}, stream_param(dec, 'dec'), 'dec', tokens=e.tokens).run()
+    except Mismatch as ex:
+        return 'bad', str(ex), None
+    bitmap = [t for t in e.tokens if t[0] in ('FIELD', 'BITS') and t[2] == n and t[2] is not UNKNOWN]
+    if not bitmap:
+        return 'undecided', 'the encoder does not write a field of len(self.additions) bits the slice can evaluate', None
+    bm = bitmap[-1]
+    header = None
+    idx = e.tokens.index(bm)
+    lend = [t for t in e.tokens[:idx] if t[0] == 'LENDET']
+    unused = [t for t in e.tokens[:idx] if t[0] in ('FIELD', 'FIELD8') and t[2] == 8]
+    if lend and unused and lend[-1][1] is not UNKNOWN and unused[-1][1] is not UNKNOWN:
+        header = (lend[-1][1], unused[-1][1])
+    for kind, want, tok, call in d.reads:
+        if tok is bm:
+            if want is UNKNOWN:
+                return 'undecided', 'the width of the decoder\'s bitmap read is not evaluable', header
+            if want != n:
+                return 'bad', 'the decoder reads a presence bitmap of %s bits, the encoder wrote %d' % (want, n), header
+            return 'ok', '', header
+    return 'undecided', 'the decoder read paired with the bitmap was not reached', header
